@@ -6,6 +6,7 @@ import (
 	"testing"
 
 	"verif/sim/simrt"
+	"verif/sim/simrt/simatomic"
 	"verif/sim/simrt/simsync"
 	"verif/sim/tape"
 )
@@ -269,5 +270,106 @@ func TestWriterPreference(t *testing.T) {
 	}
 	if blocked == 0 || free == 0 {
 		t.Fatalf("writer preference not exercised both ways: blocked=%d free=%d", blocked, free)
+	}
+}
+
+// TestAtomicModes: a store orders what came before it ahead of the loads that
+// observe it (message passing is race free); a load publishes nothing, so a
+// plain read before a load still races with a plain write after a store.
+func TestAtomicModes(t *testing.T) {
+	for seed := uint64(0); seed < 200; seed++ {
+		// message passing
+		s := simrt.New(tape.New(seed), simrt.Strategy{})
+		var data, flag int32
+		s.Go("producer", func() {
+			simrt.W(&data, "data")
+			data = 1
+			simatomic.StoreInt32(&flag, 1)
+		})
+		s.Go("consumer", func() {
+			if simatomic.LoadInt32(&flag) == 1 {
+				simrt.R(&data, "data")
+				_ = data
+			}
+		})
+		if !s.Run() || len(s.Viol) != 0 {
+			t.Fatalf("seed %d: message passing flagged: %v", seed, s.Viol)
+		}
+		// read, then load || store, then write
+		s = simrt.New(tape.New(seed), simrt.Strategy{})
+		var d2, f2 int32
+		s.Go("reader", func() {
+			simrt.R(&d2, "d2")
+			_ = d2
+			simatomic.LoadInt32(&f2)
+		})
+		s.Go("writer", func() {
+			simatomic.StoreInt32(&f2, 1)
+			simrt.W(&d2, "d2")
+			d2 = 1
+		})
+		s.Run()
+		race := false
+		for _, v := range s.Viol {
+			if v.Class == "data-race" {
+				race = true
+			}
+		}
+		if !race {
+			t.Fatalf("seed %d: read-before-load / write-after-store race not flagged", seed)
+		}
+		// a failed compare-and-swap publishes nothing, a successful one does
+		s = simrt.New(tape.New(seed), simrt.Strategy{})
+		var d3, f3 int32
+		s.Go("a", func() {
+			simrt.W(&d3, "d3")
+			d3 = 1
+			simatomic.CompareAndSwapInt32(&f3, 0, 1)
+		})
+		s.Go("b", func() {
+			if simatomic.LoadInt32(&f3) == 1 {
+				simrt.R(&d3, "d3")
+				_ = d3
+			}
+		})
+		if !s.Run() || len(s.Viol) != 0 {
+			t.Fatalf("seed %d: publication by compare-and-swap flagged: %v", seed, s.Viol)
+		}
+	}
+}
+
+// TestSpinIsCutOff: a task spinning around an atomic is stopped at the event
+// cap and does not keep running once the run is over; deferred sim points of
+// unwinding tasks do not hang either.
+func TestSpinIsCutOff(t *testing.T) {
+	s := simrt.New(tape.New(3), simrt.Strategy{})
+	s.MaxEvents = 500
+	var x int32
+	var mu simsync.Mutex
+	spins := 0
+	s.Go("spinner", func() {
+		mu.Lock()
+		defer mu.Unlock()
+		defer func() { mu.Unlock(); mu.Lock() }()
+		for !simatomic.CompareAndSwapInt32(&x, 1, 2) {
+			spins++
+		}
+	})
+	s.Go("waiter", func() {
+		mu.Lock()
+		defer mu.Unlock()
+	})
+	if s.Run() {
+		t.Fatal("run completed")
+	}
+	if len(s.Viol) == 0 || s.Viol[0].Class != "no-progress" {
+		t.Fatalf("viol: %v", s.Viol)
+	}
+	n := spins
+	for i := 0; i < 1000000; i++ {
+		_ = i
+	}
+	if spins != n || spins > 600 {
+		t.Fatalf("spinner still running: %d -> %d", n, spins)
 	}
 }
